@@ -130,3 +130,109 @@ def ossl_aead_chacha_seal(key, nonce, pt, aad):
     ct = ossl_chacha20(key, 1, nonce, pt)
     mac_data = bytes(aad) + _pad16(aad) + ct + _pad16(ct) + struct.pack('<Q', len(aad)) + struct.pack('<Q', len(ct))
     return ct + ossl_poly1305(otk, mac_data)
+
+
+# --------------------------------------------------------------------------- KDFs
+def hkdf_expand(prk, info, L, alg):
+    """RFC 5869 2.3"""
+    hl = hashlib.new(alg).digest_size
+    if L > 255 * hl:
+        raise ValueError('L too large')
+    t, okm, i = b'', b'', 0
+    while len(okm) < L:
+        i += 1
+        t = pyhmac.new(bytes(prk), t + bytes(info) + bytes([i]), alg).digest()
+        okm += t
+    return okm[:L]
+
+
+def ossl_hkdf_expand(prk, info, L, alg):
+    opts = ['digest:' + alg.upper(), 'mode:EXPAND_ONLY', 'hexkey:' + bytes(prk).hex()]
+    if info:
+        opts.append('hexinfo:' + bytes(info).hex())
+    return ossl_kdf('HKDF', L, opts)
+
+
+def hkdf_expand_label(secret, label, context, length, alg):
+    """RFC 8446 7.1"""
+    full = b'tls13 ' + bytes(label)
+    info = struct.pack('>H', length) + bytes([len(full)]) + full + bytes([len(context)]) + bytes(context)
+    return hkdf_expand(secret, info, length, alg)
+
+
+def derive_secret(secret, label, messages, alg):
+    return hkdf_expand_label(secret, label, hashlib.new(alg, bytes(messages)).digest(), hashlib.new(alg).digest_size, alg)
+
+
+def p_hash(alg, secret, seed, n):
+    """RFC 5246 5"""
+    a, out = bytes(seed), b''
+    while len(out) < n:
+        a = pyhmac.new(bytes(secret), a, alg).digest()
+        out += pyhmac.new(bytes(secret), a + bytes(seed), alg).digest()
+    return out[:n]
+
+
+def prf_tls10(secret, label, seed, n):
+    """RFC 2246 5"""
+    secret = bytes(secret)
+    half = (len(secret) + 1) // 2
+    s1, s2 = secret[:half], secret[len(secret) - half:]
+    a = p_hash('md5', s1, bytes(label) + bytes(seed), n)
+    b = p_hash('sha1', s2, bytes(label) + bytes(seed), n)
+    return bytes(x ^ y for x, y in zip(a, b))
+
+
+def prf_tls12(alg, secret, label, seed, n):
+    return p_hash(alg, secret, bytes(label) + bytes(seed), n)
+
+
+def ossl_tls1_prf(alg, secret, label_seed, n):
+    digest = {'md5sha1': 'MD5-SHA1', 'sha256': 'SHA256', 'sha384': 'SHA384'}[alg]
+    opts = ['digest:' + digest, 'hexsecret:' + bytes(secret).hex(), 'hexseed:' + bytes(label_seed).hex()]
+    return ossl_kdf('TLS1-PRF', n, opts)
+
+
+def prf_ssl3(secret, seed, n):
+    """RFC 6101 6.2.2"""
+    out, i = b'', 0
+    while len(out) < n:
+        if i >= 26:
+            raise ValueError('SSLv3 key block longer than 26 rounds is not defined')
+        salt = bytes([65 + i]) * (i + 1)
+        out += hashlib.md5(bytes(secret) + hashlib.sha1(salt + bytes(secret) + bytes(seed)).digest()).digest()
+        i += 1
+    return out[:n]
+
+
+def ssl3_finished(messages, master, sender):
+    """RFC 6101 5.6.9"""
+    m, master = bytes(messages), bytes(master)
+    md5 = hashlib.md5(master + b'\x5c' * 48 + hashlib.md5(m + sender + master + b'\x36' * 48).digest()).digest()
+    sha = hashlib.sha1(master + b'\x5c' * 40 + hashlib.sha1(m + sender + master + b'\x36' * 40).digest()).digest()
+    return md5 + sha
+
+
+def calc_key_ref(version, secret, prf_alg, purpose, messages=None, cr=None, sr=None, n=None):
+    """purpose in master/ems/keyexp/cfin/sfin; the table of RFC 6101, 2246/4346, 5246, 7627"""
+    version = tuple(version)
+    label = {'master': b'master secret', 'ems': b'extended master secret', 'keyexp': b'key expansion',
+             'cfin': b'client finished', 'sfin': b'server finished'}[purpose]
+    if version == (3, 0):
+        if purpose in ('cfin', 'sfin'):
+            return ssl3_finished(messages, secret, b'CLNT' if purpose == 'cfin' else b'SRVR')
+        if purpose == 'ems':
+            raise ValueError('no extended master secret in SSLv3')
+        seed = bytes(cr) + bytes(sr) if purpose == 'master' else bytes(sr) + bytes(cr)
+        return prf_ssl3(secret, seed, n)
+    if purpose == 'master':
+        seed = bytes(cr) + bytes(sr)
+    elif purpose == 'keyexp':
+        seed = bytes(sr) + bytes(cr)
+    elif version in ((3, 1), (3, 2)):
+        seed = hashlib.md5(bytes(messages)).digest() + hashlib.sha1(bytes(messages)).digest()
+    else:
+        seed = hashlib.new(prf_alg, bytes(messages)).digest()
+    if version in ((3, 1), (3, 2)):
+        return prf_tls10(secret, label, seed, n)
+    return prf_tls12(prf_alg, secret, label, seed, n)
